@@ -116,7 +116,7 @@ FASTOR_INLINE void _transpose<float,3,3>(const float * FASTOR_RESTRICT a, float 
     // 5 OPS
     __m128 row0 = _mm_loadu_ps(a);
     __m128 row1 = _mm_loadu_ps(a+3);
-    __m128 row2 = _mm_loadu_ps(a+6);
+    __m128 row2 = _mm_loadul3_ps(a+6);
 
     __m128 T0   = _mm_unpacklo_ps(row0,row1);
     __m128 T1   = _mm_unpackhi_ps(row0,row1);
@@ -127,7 +127,7 @@ FASTOR_INLINE void _transpose<float,3,3>(const float * FASTOR_RESTRICT a, float 
 
     _mm_storeu_ps(out,row0);
     _mm_storeu_ps(out+3,row1);
-    _mm_storeu_ps(out+6,row2); // out of range for out[9]
+    _mm_storeul3_ps(out+6,row2);
 #else
     // 3 OPS
     // gcc/clang emit vpermsps tht operate on (%rsp)
